@@ -235,6 +235,78 @@ def templates(tier):
     return [(n, {"parts": p, "declared": d}) for n, p, d in T]
 
 
+def capture_obligations(rep):
+    """C01: what the grammar *captures* for keyword-like tokens, read from the map closures of parser/src/lib.rs and the
+    constructors of parser/src/model.rs: every `map(tag(K), |_| model::T::V)` builds the variant the keyword names,
+    standalone is true exactly for 'yes', decimal / hexadecimal character references keep their radix."""
+    import re
+    from sx import active
+    g = xmlgram.grammar()
+    f = xmlgram.GRAMMAR_FILES[0]
+    bad, seen = [], 0
+
+    def norm(x):
+        return re.sub(r"[^a-z0-9]", "", x.lower())
+    for key in list(g.dump.fns):
+        if key[0] != f:
+            continue
+        ref = g.production(key[1], f)
+        try:
+            g.body_of(ref)
+        except nomsem.Unsupported:
+            continue
+        for n in active.find_nodes(g, ref, lambda n: n.kind == "map" and isinstance(n.arg, dict) and n.arg.get("k") == "closure" and n.kids and n.kids[0].kind == "tag"):
+            body = n.arg["body"]
+            if body.get("k") == "path" and len(body["segs"]) >= 2 and body["segs"][0] == "model" and n.arg["params"][0].get("k") == "wild":
+                seen += 1
+                kw, variant = n.kids[0].arg, body["segs"][-1]
+                if norm(kw) != norm(variant):
+                    bad.append("%s: keyword %r builds %s" % (key[1], kw, "::".join(body["segs"])))
+    # standalone
+    sd = g.dump.fns.get((f, "sd_decl"))
+    lits = []
+
+    def walk(v):
+        if isinstance(v, dict):
+            if v.get("k") == "closure" and v["body"].get("k") == "binary" and v["body"]["op"] in ("==", "!="):
+                b = v["body"]
+                for side in (b["l"], b["r"]):
+                    if side.get("k") == "lit" and side.get("t") == "str":
+                        lits.append((b["op"], side["v"]))
+            for x in v.values():
+                walk(x)
+        elif isinstance(v, list):
+            for x in v:
+                walk(x)
+    walk(sd["body"] if sd else {})
+    if lits != [("==", "yes")]:
+        bad.append("sd_decl: standalone is not `value == \"yes\"` (%s)" % (lits or "shape not recognised"))
+    else:
+        seen += 1
+    # char_ref radix
+    cr = g.production("char_ref", f)
+    body = g.body_of(cr)
+    pairs = []
+    for n in active.find_nodes(g, cr, lambda n: n.kind == "map" and isinstance(n.arg, dict) and n.arg.get("k") == "path"):
+        cls = active.find_nodes_in(n, lambda x: x.kind == "class1" and isinstance(x.arg, nomsem.RangesPred))
+        if len(cls) == 1:
+            radix = 10 if sorted(cls[0].arg.ranges) == [(0x30, 0x39)] else 16
+            pairs.append((radix, n.arg["segs"][-1]))
+    model_f = xmlgram.GRAMMAR_FILES[1]
+    for radix, ctor in pairs:
+        fns = [fn for (ff, sty, nm), fl in g.dump.methods.items() if ff == model_f and sty.startswith("Reference") and nm == ctor for fn in fl]
+        t = json.dumps(fns[0]["body"]) if fns else ""
+        m = re.search(r'"t": "int", "v": "(\d+)"', t)
+        if not m or int(m.group(1)) != radix:
+            bad.append("char_ref: the radix-%d alternative is built by Reference::%s, which records radix %s" % (radix, ctor, m.group(1) if m else "?"))
+        else:
+            seen += 1
+    if len(pairs) != 2:
+        bad.append("char_ref: expected a decimal and a hexadecimal alternative")
+    rep.obligation("C01.g.captures.keywords", "violated" if bad else "holds", reach="sat", sites=seen, detail=bad)
+    return bad
+
+
 def main(prop):
     args = common.args_for(prop)
     rep = common.Report(args)
@@ -263,6 +335,14 @@ def main(prop):
         rep.inconclusive.append(str(e))
         return rep.finish()
 
+    if prop == "C01":
+        try:
+            bad = capture_obligations(rep)
+            if bad:
+                rep.violation("C01.g.captures.keywords", {"op": "from_raw", "input": "<?xml version='1.0' standalone='yes'?><!DOCTYPE r [<!ATTLIST r a IDREFS #IMPLIED>]><r>&#x41;&#65;</r>",
+                                                          "expect": "accepted with empty rest", "detail": bad, "property": "C01"}, "; ".join(bad))
+        except (nomsem.Unsupported, KeyError, IndexError) as e:
+            rep.inconclusive.append("capture obligations: %s" % e)
     jobs = [("free", L, prop, known, timeout_s, args.seed) for L in range(0, N + 1)]
     for name, spec in templates(args.tier):
         jobs.append(("tpl:" + name, spec, prop, known, timeout_s, args.seed))
